@@ -71,7 +71,7 @@ class RecordingCriteria:
         raise NotImplementedError
 
 
-def execute(spec: dict, chooser: Chooser, depth: int, policy: Policy | None = None, probe=None, setup=None):
+def execute(spec: dict, chooser: Chooser, depth: int, policy: Policy | None = None, probe=None, setup=None, before_trial=None):
     """Build the system, run ``depth`` steps (one trial per cycle) and return (system, trials).
 
     ``probe(system)`` is evaluated before and after every trial.  Exceptions raised inside a
@@ -118,6 +118,8 @@ def execute(spec: dict, chooser: Chooser, depth: int, policy: Policy | None = No
                 cur.name = str(name)
                 cur.seg = chooser.seg
                 cur._t0 = len(rng.thresholds)
+                if before_trial is not None:
+                    before_trial(sysm, len(trials), sink)
                 cur.pre = atoms_snapshot(sysm.atoms)
                 cur.pre_book = bookkeeping(sysm)
                 if probe is not None:
